@@ -1274,7 +1274,15 @@ func main() {
 					if any {
 						break
 					}
-					if time.Now().After(deadline) {
+					failed := false
+					cer.mu.Lock()
+					for _, r := range cer.tp.nodes {
+						if r.err != nil {
+							failed = true
+						}
+					}
+					cer.mu.Unlock()
+					if failed || time.Now().After(deadline) {
 						stalled = true
 						break
 					}
